@@ -375,12 +375,59 @@ func (c *Ctx) ruleKeyMatch(specs []walkerSpec) {
 			si int
 		}
 		var eqEdges, lenEdges []edge
+		eqSeen := false
 		for _, b := range f.Blocks {
 			iff := ifOf(b)
 			if iff == nil {
 				continue
 			}
 			cond, flip := stripNot(iff.Cond)
+			if phi, ok := cond.(*ssa.Phi); ok {
+				// nodeFound := len(key) == 0 || bytes.Equal(pk, key); if nodeFound { ... }
+				hasLen, hasEq, other := false, false, false
+				for i, e := range phi.Edges {
+					if k, ok := e.(*ssa.Const); ok && k.Value != nil {
+						if k.Value.String() == "true" {
+							// which condition sent us here with `true`?
+							pred := phi.Block().Preds[i]
+							if pi := ifOf(pred); pi != nil {
+								if subj, op, kk, ok := cmpWithConst(pi.Cond); ok && kk == 0 && (op == token.EQL || op == token.LEQ) {
+									if l, ok := lenOf(subj); ok && isKeyDerived(l) {
+										hasLen = true
+										continue
+									}
+								}
+							}
+							other = true
+						}
+						continue
+					}
+					if call := callTo(e, "bytes.Equal"); call != nil {
+						a0, a1 := call.Call.Args[0], call.Call.Args[1]
+						if (isPartialKeyLoad(a0) && isKeyDerived(a1)) || (isPartialKeyLoad(a1) && isKeyDerived(a0)) {
+							hasEq = true
+							continue
+						}
+					}
+					other = true
+				}
+				if !other && (hasLen || hasEq) {
+					si := 0
+					if flip {
+						si = 1
+					}
+					if hasLen {
+						lenEdges = append(lenEdges, edge{b, si})
+					} else {
+						eqEdges = append(eqEdges, edge{b, si})
+					}
+					if hasLen && hasEq {
+						// removing this edge removes both alternatives; K1 needs at least one Equal alternative
+						eqSeen = true
+					}
+				}
+				continue
+			}
 			for si := 0; si < 2; si++ {
 				truth := (si == 0) != flip
 				if call := callTo(cond, "bytes.Equal"); call != nil && truth {
@@ -432,7 +479,7 @@ func (c *Ctx) ruleKeyMatch(specs []walkerSpec) {
 		for i, tg := range targets {
 			k := fmt.Sprintf("%s:%s#%d", fname, sp.k1, i+1)
 			both := append(append([]edge{}, eqEdges...), lenEdges...)
-			okBoth := len(eqEdges) > 0 && !reach(tg.Block(), both)
+			okBoth := (len(eqEdges) > 0 || eqSeen) && !reach(tg.Block(), both)
 			c.ob("R-KEYMATCH/K1", k, tg.Pos(), okBoth, fmt.Sprintf("%s performs its target action (%s) on a path that passes neither bytes.Equal(partialKey, key) nor len(key)==0: a node that does not match the key is treated as the target", shortFn(f), sp.k1))
 			okStrict := len(eqEdges) > 0 && !reach(tg.Block(), eqEdges)
 			c.ob("R-KEYMATCH/K1-strict", k, tg.Pos(), okStrict, fmt.Sprintf("%s treats an exhausted key (len(key)==0) as a match even when the node's partial key is not empty", shortFn(f)))
